@@ -967,11 +967,21 @@ def scan_vectors(rep, tier, seed):
                "--depth", "3" if tier == QUICK else "5"]
         procs.append(subprocess.Popen(cmd, cwd=vlib.ROOT, stdout=subprocess.PIPE, stderr=subprocess.PIPE, text=True))
     nvec = 0
-    for pr in procs:
+    dead = []
+    for si, pr in enumerate(procs):
         out, err = pr.communicate(timeout=1800)
+        if pr.returncode < 0 or pr.returncode in DIED:
+            # a scanner that brings the driver down (a load outside the buffer, a panic that cannot be caught) is data
+            rep.violation({"kind": "process-died", "exit": pr.returncode, "object": "scan-vectors", "event": "abort", "op": "", "spec": "",
+                           "panic": False, "parser": ""},
+                          {"spec": None, "how_to_replay": "vh scan-vectors --shard %d --shards %d --seed %d (release build)" % (si, shards, seed),
+                           "exit_status": pr.returncode, "stderr_tail": err[-400:]})
+            dead.append(paths[si])
+            continue
         if pr.returncode != 0:
             raise ToolError("vh scan-vectors failed: %s" % err[-1500:])
         nvec += json.loads(out.strip().splitlines()[-1]).get("vectors", 0)
+    paths = [p_ for p_ in paths if p_ not in dead]
     res = validate_traces("c13v_", "Trace_Reader", "Trace_Reader.cfg", paths)
     _report_rejects(rep, "Trace_Reader", res["rejected"], "vh scan-vectors; ./check C13 --replay <this file>")
     rep.cov["traces_validated_against_impl"] = rep.cov.get("traces_validated_against_impl", 0) + nvec - len(res["rejected"])
